@@ -393,7 +393,7 @@ def make_super(I, n, env):
 # ------------------------------------------------------------------ strings: format / to_str
 
 def int_to_sstr(v, is_bytes):
-    z = to_z3_int(v)
+    z = z3.simplify(to_z3_int(v))
     if z3.is_app(z) and z.decl().kind() == z3.Z3_OP_SEQ_LENGTH:
         return SStr(z3.IntToStr(z), is_bytes)
     t = z3.If(z >= 0, z3.IntToStr(z), z3.Concat(z3.StringVal("-"), z3.IntToStr(-z)))
@@ -416,6 +416,11 @@ def to_str(I, v, conv="s"):
     if isinstance(v, (bytes, float)) :
         return str(v) if conv == "s" else repr(v)
     return Opaque("str()")
+
+
+def _rope_nonneg(I, a):
+    from . import models_str as S
+    return S.rope_nonneg(I, a)
 
 
 def str_format(I, fmt, args):
@@ -459,7 +464,7 @@ def str_format(I, fmt, args):
                 if isinstance(a, (SStr, SBytes, str, bytes)) or a is None:
                     raise PyRaise(TypeError("%d format: a number is required"), TypeError)
                 return Opaque("format")
-            if is_sym_int(a) and a.get_id() in I.ghost.get("nonneg", ()):
+            if is_sym_int(a) and (a.get_id() in I.ghost.get("nonneg", ()) or (I.cfg.get("rope") and _rope_nonneg(I, a))):
                 parts.append(SStr(z3.IntToStr(a), isb))
             else:
                 parts.append(int_to_sstr(a, isb) if not isinstance(a, int) else (str(int(a)).encode() if isb else str(int(a))))
